@@ -473,8 +473,32 @@ func (p *Path) flushPending() {
 				p.abort(abInconclusive, "deferred check: model satisfies no disjunct")
 			}
 		case RUnknown:
-			p.sawUnknown = true
-			p.abort(abInconclusive, "solver returned unknown (%s) on the deferred assertions", msg)
+			// the disjunction over all deferred checks timed out: decide the checks one by one (each with its own
+			// time limit); only a check that is still undecided on its own makes the path inconclusive
+			for i, it := range items {
+				if !active[i] {
+					continue
+				}
+				tq := time.Now()
+				r1, m1, msg1 := p.solver.CheckWith(it, p.vars)
+				p.solverWall += time.Since(tq)
+				switch r1 {
+				case RUnsat:
+					active[i] = false
+				case RSat:
+					pd := p.pending[i]
+					p.recordViolationAt(pd.kind, pd.tag, p.instrWhere(pd.instr), m1, pd.nvars)
+					for j := range items {
+						if p.pending[j].tag == pd.tag && p.pending[j].instr == pd.instr {
+							active[j] = false
+						}
+					}
+				default:
+					p.sawUnknown = true
+					p.abort(abInconclusive, "solver returned unknown (%s / %s) on a deferred assertion: %s", msg, msg1, p.pending[i].tag)
+				}
+			}
+			return
 		default:
 			p.abort(abInconclusive, "solver error on the deferred assertions: %s", msg)
 		}
